@@ -10,7 +10,9 @@ Decided here (necessary structural conditions, DESIGN.md section 5/C01):
   C01-R3  the low-level primitives the equations are written in compute what their names say
           (comparator = bitwise equality of the variable's copy with the state, intersected with the unit set;
           projections quantify exactly the variable's copy / exactly the state variables);
-  C01-R4  fixed-point loops run to stabilisation (shared with C11).
+  C01-R4  fixed-point loops run to stabilisation (shared with C11);
+  C01-R5  every entry point hands eval_node the steady states of the graph it evaluates on ("a state without outgoing
+          transitions carries a self-loop"), computed unconditionally (exception: the documented unsafe entry point).
 Not decided: that the graph library's pre-images are those of the asynchronous semantics (L1, L2)."""
 import evalnode as E
 import lowlevel
@@ -51,6 +53,10 @@ def run(prog, rep):
     rep.floor("C01-R2", 6)
     lowlevel.check_primitives(prog, rep, "C01-R3")
     rep.floor("C01-R3", 5)
+    import pipelines
+    rep.rule("C01-R5", "every driver passes compute_steady_states(graph) of the evaluated graph to eval_node")
+    pipelines.check_steady_pipeline(prog, rep, "C01-R5")
+    rep.floor("C01-R5", 20)
     eng = terms.Engine(prog, inline=True)
     for f in prog.lib_fns():
         if f.path.startswith(E.OPS):
